@@ -274,7 +274,7 @@ func (self *AofFile) ReadHeader() error {
 		return err
 	}
 	if n != 12 {
-		return errors.New("File is not AOF FIle")
+		return io.EOF
 	}
 	if string(buf[:8]) != "SLOCKAOF" {
 		return errors.New("File is not AOF File")
